@@ -64,7 +64,7 @@ impl Property for C16 {
         Some("app x deviation matrix (2 x 9) enumerated completely with one fixed delivery; deliveries sampled")
     }
     fn cases(&self, tier: Tier) -> u64 {
-        tier.pick(6000, 60000)
+        tier.pick(20000, 200000)
     }
     fn strategy(&self, _tier: Tier) -> BoxedStrategy<Case> {
         (any::<bool>(), prop::sample::select(DEVS.to_vec()), 0u8..3, 0u8..3, 0u8..3, 0u16..600, any::<u64>())
